@@ -15,6 +15,11 @@ from . import visualize
 __all__ = ['Lattice']
 
 
+def _unpickle(context, lattice):
+    """Rebuild a pickled lattice from its context and index-based list."""
+    return Lattice._fromlist(context, lattice, False)
+
+
 class Data:
     """Formal concept lattice as context, list of concepts, and mapping."""
 
@@ -138,6 +143,10 @@ class Data:
 
         for c in touched:
             c.properties = tuple(c.properties)
+
+    def __reduce__(self):
+        """Pickle lattice as context plus index-based list (see ``Context.todict()``)."""
+        return _unpickle, (self._context, self._tolist())
 
     def __getstate__(self):
         """Pickle lattice as ``(context, concepts)`` tuple."""
